@@ -58,6 +58,72 @@ func skolemizeGoal(goal string, id int) (string, []skolem) {
 	return g.String(), sks
 }
 
+// goalIndexTerms: the index terms at which the goal reads array elements
+// (select (select HA_x ref) idx), idx = off + k: k). A goal that is not itself
+// quantified usually needs the assumed quantified facts at exactly these.
+func goalIndexTerms(goal string, sort string) []skolem {
+	if !strings.Contains(goal, "(select (select HA_") {
+		return nil
+	}
+	xs := parseSx(goal)
+	if len(xs) != 1 {
+		return nil
+	}
+	seen := map[string]bool{}
+	var out []skolem
+	var walk func(x *sx, bound map[string]bool)
+	walk = func(x *sx, bound map[string]bool) {
+		if x.list == nil {
+			return
+		}
+		if h := x.head(); (h == "forall" || h == "exists") && len(x.list) == 3 {
+			nb := map[string]bool{}
+			for k := range bound {
+				nb[k] = true
+			}
+			for _, b := range x.list[1].list {
+				if len(b.list) == 2 {
+					nb[b.list[0].atom] = true
+				}
+			}
+			walk(x.list[2], nb)
+			return
+		}
+		if x.head() == "select" && len(x.list) == 3 && x.list[1].head() == "select" &&
+			len(x.list[1].list) == 3 && strings.HasPrefix(x.list[1].list[1].atom, "HA_") {
+			k := x.list[2]
+			switch k.head() {
+			case "bvadd", "at", "+":
+				if len(k.list) == 3 {
+					k = k.list[2]
+				}
+			}
+			s := k.String()
+			if !seen[s] && len(out) < 4 && !mentionsBound(k, bound) {
+				seen[s] = true
+				out = append(out, skolem{s, sort})
+			}
+		}
+		for _, e := range x.list {
+			walk(e, bound)
+		}
+	}
+	walk(xs[0], map[string]bool{})
+	return out
+}
+
+func mentionsBound(x *sx, bound map[string]bool) bool {
+	if x.list == nil {
+		return bound[x.atom]
+	}
+	for _, e := range x.list {
+		if mentionsBound(e, bound) {
+			return true
+		}
+	}
+	return false
+}
+
 // instantiateAt: the assert command with every positively occurring
 // one-variable quantifier of a matching sort replaced by its instances at the
 // given constants; "" when there is none.
